@@ -13,6 +13,9 @@ def unit(name, alias, rx, names=None, names_opt=None, boundary=(), types=None, *
     d = dict(name=name, driver='c07_mutex.cpp', roots=[rx], names=nm, names_opt=names_opt or {}, types=dict(TYPES, **(types or {})), globals=GLOBALS, boundary=list(boundary), lib=LIBS,
              spec=['C07/m_spec.h', 'C07/h_m.c'], harness='h_' + name, enforce=alias, under_contract=[rx.strip('^$').replace('\\', '')])
     d.update(kw)
+    # mutual exclusion is meant in the happens-before sense: the acquire/release obligations of the mutex protocol (try-lock acquire,
+    # publishing CAS release, unlock release, chain detach acquire) are part of C07 as well as of C03
+    if 'rt_atomic_protM.c' in d['lib']: d['defines'] = list(d.get('defines', [])) + ['CV_CHECK_C03 1']
     return d
 MXAW = r'^cocls::co_awaiter<cocls::mutex>::'
 UNITS = [
